@@ -1,5 +1,6 @@
 import RattrDriver.JsonUtil
 import RattrModel.Cli
+import RattrModel.Argv
 import RattrModel.Spec.Precedence
 
 namespace Rattr.Driver.C20
@@ -83,6 +84,8 @@ def argErrJson : ArgErr → List (String × Json)
   | .unrecognized => [("err", "unrecognized")]
   | .versionExit => [("err", "versionExit")]
   | .unsupported => [("err", "unsupported")]
+  | .ignoredExplicitArgument d => [("err", "ignoredExplicitArgument"), ("dest", d.toS)]
+  | .ambiguousOption => [("err", "ambiguousOption")]
 
 def tomlFailJson : TomlFail → List (String × Json)
   | .decode => [("err", "decode")]
@@ -134,11 +137,18 @@ def handle (payload : Json) : R Json := do
     | .null => pure none
     | j => do pure (some (← parseToml j))
   let eoe ← asBool (fieldD payload "exit_on_error" (.bool false))
-  let out := parseArguments world inputConf argv eoe
+  -- the model with argparse's own tokeniser (RattrModel/Argv.lean); on canonical argv it IS
+  -- `parseArguments` (C20.parseArgumentsX_canon)
+  let out := parseArgumentsX world inputConf argv eoe
+  -- the normalised option list of the command line: [dest, value | null] per occurrence
+  let norm : Json := match tokenise cliParserH argv with
+    | .error e => Json.mkObj (argErrJson e)
+    | .ok toks => Json.arr ((occurrences cliParserH toks).map fun (d, v) =>
+        Json.arr #[Json.str d.toS, match v with | none => Json.null | some t => Json.str (textStr t)]).toArray
   let spec ← (← asArr (fieldD payload "spec" (.arr #[]))).mapM specEntry
   let src := Spec.tomlSource (match fieldD payload "spec_override" .null with | .null => none | j => some j)
                              (match fieldD payload "spec_pyproject" .null with | .null => none | j => some j)
-  return Json.mkObj [("model", outcomeJson out), ("spec", Json.mkObj spec),
+  return Json.mkObj [("model", outcomeJson out), ("spec", Json.mkObj spec), ("norm", norm),
                      ("spec_source", match src with | none => .null | some j => j),
                      ("toml_tokens", match inputConf with
                         | some c => (match validateToml tomlTypeMap c with
